@@ -15,6 +15,7 @@ Record space := mkSpace {
   s_nlocal : N }.               (* Module::num_local_X *)
 
 Record mst := mkM { m_f : space; m_g : space; m_m : space; m_imports : list imp }.
+(* number of exports is tracked by the caller of [step] (it only matters for DeleteExport's bounds check) *)
 
 Inductive res (A : Type) := Ok (a : A) | Panic (why : N).
 Arguments Ok {A}. Arguments Panic {A}.
@@ -110,7 +111,10 @@ Inductive op :=
 | Delete (s : sp) (id : N)
 | LocalToImport (id : N) (fp : N)       (* convert_local_fn_to_import *)
 | ImportToLocal (imp_id : N) (fp : N)   (* FunctionBuilder::replace_import_in_module *)
-| ItAddGlobal (fp : N).                 (* ModuleIterator::add_global *)
+| ItAddGlobal (fp : N)                  (* ModuleIterator::add_global *)
+| AddExport (s : sp) (id : N)           (* exports.add_export_func / add_export_mem: no state of the index spaces changes *)
+| DeleteExport (k : N)                  (* exports.delete(ExportsID k): Panic when out of range *)
+| AddData (mem : N).                    (* add_data(active segment on memory id): no state of the index spaces changes *)
 
 (* result of one API call: new state and the id the call returned (if any) *)
 Definition push_import (m : mst) (s : sp) (fp : N) : mst * N * N :=
@@ -199,6 +203,8 @@ Definition step (m : mst) (o : op) : res (mst * option N) :=
                   end
             end
       end
+  | AddExport _ _ | AddData _ => Ok (m, None)
+  | DeleteExport _ => Ok (m, None)
   | ItAddGlobal fp =>
       let x := m_g m in
       let id := lenN (s_items x) in
@@ -214,34 +220,80 @@ Fixpoint run (m : mst) (h : list op) (rets : list (option N)) : res (mst * list 
                end
   end.
 
+(* ---------- reference sites ---------- *)
+(* where a reference lives: decides how (and whether) encode rewrites it *)
+Inductive rk :=
+| KCode        (* call / return_call / ref.func / global.get / i32.load ... in original, built or injected code *)
+| KExport | KStart
+| KElemFn      (* function-index item of an element segment *)
+| KElemExpr    (* `ref.func f` expression item of an element segment: never re-indexed (D05) *)
+| KDataMem     (* memory index of an active data segment *)
+| KDataOff     (* `global.get g` offset of an active data segment *)
+| KInit.       (* `global.get g` / `ref.func f` in the initialiser of a local global *)
+Inductive owner := ONone | OFunc (id : N) | OGlobal (id : N) | OExport (k : N).
+Record rsite := mkSite { rs_k : rk; rs_sp : sp; rs_id : N; rs_owner : owner }.
+
+Definition rk_code (k : rk) : N :=
+  match k with KCode => 0 | KExport => 1 | KStart => 2 | KElemFn => 3 | KElemExpr => 4 | KDataMem => 5 | KDataOff => 6 | KInit => 7 end.
+
 (* ---------- encode: what the decoder of the output can see ---------- *)
 Record emod := mkE {
   e_imports : list (N * N);                 (* (space code, fp) in import-section order *)
   e_funcs : list N; e_globals : list N; e_mems : list N;   (* fps of the locally defined entities, section order *)
-  e_refs : list (N * N * N) }.              (* (space code, caller id, emitted index) *)
+  e_sites : list (N * N) }.                 (* (site number, emitted index) for every site present in the output *)
 
 Definition emitted_locals (l : list item) (check_deleted : bool) : list N :=
   map it_fp (filter (fun i => is_local i && (if check_deleted then negb (it_del i) else true)) l).
 
-Fixpoint map_refs (code : N) (m : list (N * N)) (ids : list N) : res (list (N * N * N)) :=
-  match ids with
-  | [] => Ok []
-  | p :: ids' =>
-      match lookup m p with
-      | None => Panic 50                          (* "Deleted function!/global!/memory" *)
-      | Some q => match map_refs code m ids' with Ok r => Ok ((code, p, q) :: r) | Panic w => Panic w end
-      end
+(* an item is looked up by its stored id (= its position when it was inserted) *)
+Definition find_item (l : list item) (id : N) : option item := find (fun i => N.eqb (it_id i) id) l.
+Definition live_local (l : list item) (id : N) : bool :=
+  match find_item l id with Some i => is_local i && negb (it_del i) | None => false end.
+
+Definition site_active (lf lg : list item) (dead_exports : list N) (s : rsite) : bool :=
+  match rs_owner s with
+  | ONone => true
+  | OFunc id => live_local lf id
+  | OGlobal id => live_local lg id
+  | OExport k => negb (existsb (N.eqb k) dead_exports)
   end.
 
-Definition encode (m : mst) (rf rg rm : list N) : res emod :=
+(* Ok (Some q) = emitted with index q; Ok None = the reference is dropped (deleted start function);
+   Panic = encode panics *)
+Definition site_emit (mf mg mm : list (N * N)) (s : rsite) : res (option N) :=
+  let m := match rs_sp s with SF => mf | SG => mg | SM => mm end in
+  match rs_k s, rs_sp s with
+  | KExport, SG => Ok (Some (rs_id s))                      (* D03: global exports are copied *)
+  | KElemExpr, _ => Ok (Some (rs_id s))                     (* D05 *)
+  | KStart, _ => Ok (lookup m (rs_id s))                    (* warn!("Deleted the start function!") *)
+  | _, _ => match lookup m (rs_id s) with Some q => Ok (Some q) | None => Panic 50 end
+  end.
+
+Fixpoint emit_sites (n : N) (lf lg : list item) (dead : list N) (mf mg mm : list (N * N)) (ss : list rsite)
+  : res (list (N * N)) :=
+  match ss with
+  | [] => Ok []
+  | s :: ss' =>
+      if site_active lf lg dead s then
+        match site_emit mf mg mm s with
+        | Panic w => Panic w
+        | Ok r =>
+            match emit_sites (n + 1) lf lg dead mf mg mm ss' with
+            | Panic w => Panic w
+            | Ok rest => Ok (match r with Some q => (n, q) :: rest | None => rest end)
+            end
+        end
+      else emit_sites (n + 1) lf lg dead mf mg mm ss'
+  end.
+
+Definition encode (m : mst) (dead_exports : list N) (sites : list rsite) : res emod :=
   match index_space (m_f m), index_space (m_g m), index_space (m_m m) with
   | Ok (lf, mf), Ok (lg, mg), Ok (lm, mm) =>
-      match map_refs 0 mf rf, map_refs 1 mg rg, map_refs 2 mm rm with
-      | Ok a, Ok b, Ok c =>
+      match emit_sites 0 lf lg dead_exports mf mg mm sites with
+      | Ok ss =>
           Ok (mkE (map (fun i => (i_sp i, i_fp i)) (filter (fun i => negb (i_del i)) (m_imports m)))
-                  (emitted_locals lf true) (emitted_locals lg true) (emitted_locals lm false)
-                  (a ++ b ++ c))
-      | Panic w, _, _ | _, Panic w, _ | _, _, Panic w => Panic w
+                  (emitted_locals lf true) (emitted_locals lg true) (emitted_locals lm false) ss)
+      | Panic w => Panic w
       end
   | Panic w, _, _ | _, Panic w, _ | _, _, Panic w => Panic w
   end.
